@@ -14,11 +14,36 @@ use std::panic::AssertUnwindSafe;
 enum WRes { Ok(String), Err, Panic }
 type RRes = Result<Option<(MMappings, Vec<String>)>, String>; // Err = panic; None = Err(_)
 
+// ---------- Gallina printing: strings as packed integers decoded by C03.Run.u (fast to parse) ----------
+fn hstr(s: &[u32]) -> String {
+	// generalised UTF-8 (surrogates as three bytes), seven bytes per 63-bit integer
+	let mut bytes: Vec<u8> = Vec::with_capacity(s.len() + 8);
+	for &c in s {
+		if c < 0x80 { bytes.push(c as u8); }
+		else if c < 0x800 { bytes.push(0xC0 | (c >> 6) as u8); bytes.push(0x80 | (c & 0x3F) as u8); }
+		else if c < 0x10000 { bytes.push(0xE0 | (c >> 12) as u8); bytes.push(0x80 | ((c >> 6) & 0x3F) as u8); bytes.push(0x80 | (c & 0x3F) as u8); }
+		else { bytes.push(0xF0 | (c >> 18) as u8); bytes.push(0x80 | ((c >> 12) & 0x3F) as u8); bytes.push(0x80 | ((c >> 6) & 0x3F) as u8); bytes.push(0x80 | (c & 0x3F) as u8); }
+	}
+	let ints: Vec<String> = bytes.chunks(7).map(|ch| {
+		let mut v: u64 = 0;
+		for (k, b) in ch.iter().enumerate() { v |= (*b as u64) << (8 * k); }
+		((v << 3) | ch.len() as u64).to_string()
+	}).collect();
+	format!("(u [{}])", ints.join(";"))
+}
+fn h_names(n: &NamesRow) -> String { glist(n.iter().map(|o| gopt(o.as_ref().map(|s| hstr(s))))) }
+fn h_doc(d: &Option<S>) -> String { gopt(d.as_ref().map(|s| hstr(s))) }
+fn h_param(p: &MParam) -> String { format!("(mkParam {} {} {})", p.index, h_names(&p.names), h_doc(&p.doc)) }
+fn h_field(f: &MField) -> String { format!("(mkField {} {} {})", hstr(&f.desc), h_names(&f.names), h_doc(&f.doc)) }
+fn h_meth(m: &MMeth) -> String { format!("(mkMeth {} {} {} {})", hstr(&m.desc), h_names(&m.names), h_doc(&m.doc), glist(m.params.iter().map(h_param))) }
+fn h_class(c: &MClass) -> String { format!("(mkClass {} {} {} {})", h_names(&c.names), h_doc(&c.doc), glist(c.fields.iter().map(h_field)), glist(c.methods.iter().map(h_meth))) }
+fn h_mappings(m: &MMappings) -> String { format!("(mkMappings {} {} {})", glist(m.ns.iter().map(|s| hstr(s))), h_doc(&m.doc), glist(m.classes.iter().map(h_class))) }
+
 fn g_wres(w: &WRes) -> String {
-	match w { WRes::Ok(t) => format!("(WOk {})", gstr(&cps_str(t))), WRes::Err => "WErr".into(), WRes::Panic => "WPanic".into() }
+	match w { WRes::Ok(t) => format!("(WOk {})", hstr(&cps_str(t))), WRes::Err => "WErr".into(), WRes::Panic => "WPanic".into() }
 }
 fn g_rres(r: &RRes) -> String {
-	match r { Ok(Some((m, _))) => format!("(Ok {})", g_mappings(m)), _ => "Err".into() }
+	match r { Ok(Some((m, _))) => format!("(Ok {})", h_mappings(m)), _ => "Err".into() }
 }
 
 fn write_q<const N: usize>(q: &Mappings<N, NsAny>) -> WRes {
@@ -229,14 +254,13 @@ struct Tally { in_hyp: u64, out_hyp: u64 }
 fn through(r: &mut Report, rng: &mut Rng, m: &MMappings, stream: &str, orders: usize, tally: &mut Tally) {
 	let n = m.ns.len();
 	let hyp = wf(m) && textual(m);
-	r.case(stream, format!("CHyp {} {}", g_mappings(m), gbool(hyp)));
 	if hyp { tally.in_hyp += 1; } else { tally.out_hyp += 1; }
 	let w = match impl_write(m) {
 		Ok(w) => w,
 		Err(e) => { r.count(&format!("{stream}:not-constructible")); if hyp { r.violation(format!("a well-formed mapping set cannot be built as a quill tree: {e:#}"), replay("construction failed", Some(m), None, "")); } return; }
 	};
 	let rr: RRes = match &w { WRes::Ok(t) => impl_read(n, t), _ => Ok(None) };
-	r.case(stream, format!("CWriteRead {} {} {}", g_mappings(m), g_wres(&w), g_rres(&rr)));
+	r.case(stream, format!("CWriteRead {} {} {} {}", h_mappings(m), gbool(hyp), g_wres(&w), g_rres(&rr)));
 	let ok_rt = matches!(&rr, Ok(Some((m2, d))) if d.is_empty() && m2.equiv(m));
 	r.eval(&g_mappings(&m.canon()), m.size() > 0 && ok_rt);
 	r.count(&format!("{stream}:n={n}"));
@@ -269,14 +293,14 @@ fn through(r: &mut Report, rng: &mut Rng, m: &MMappings, stream: &str, orders: u
 	if orders > 0 {
 		// one of the other orders also goes to the model
 		let s = shuffled(rng, m);
-		if let Ok(w2) = impl_write(&s) { r.case("valid-shuffled", format!("CWrite {} {}", g_mappings(&s), g_wres(&w2))); }
+		if let Ok(w2) = impl_write(&s) { r.case("valid-shuffled", format!("CWrite {} {}", h_mappings(&s), g_wres(&w2))); }
 	}
 }
 
 /// a text through the reader; when it reads, the result is put through the property as well
 fn through_text(r: &mut Report, rng: &mut Rng, n: usize, text: &str, stream: &str, kind: &str, tally: &mut Tally) {
 	let rr = impl_read(n, text);
-	r.case(stream, format!("CRead {n} {} {}", gstr(&cps_str(text)), g_rres(&rr)));
+	r.case(stream, format!("CRead {n} {} {}", hstr(&cps_str(text)), g_rres(&rr)));
 	match &rr {
 		Err(p) => { r.violation(format!("read panicked: {p}"), replay("read panicked", None, Some(text), &format!("namespaces: {n}\n"))); r.eval(text, false); }
 		Ok(None) => { r.count(&format!("{stream}:{kind}=Err")); r.eval(text, false); }
@@ -342,8 +366,7 @@ pub fn run(ctx: &Ctx) -> anyhow::Result<Report> {
 			let (kind, ci, cj) = (rng.below(3), rng.below(m.classes.len()), rng.below(m.classes.len()));
 			if let Ok((seen, w, rr)) = with_n!(n, damaged_n, &m, kind, ci, cj) {
 				r.count(&format!("violate-wf:{}:read={}", ["no-first-class-name", "duplicate-class-info", "no-first-member-name"][kind], match &rr { Ok(Some(_)) => "Ok", _ => "Err" }));
-				r.case("violate-wf", format!("CHyp {} {}", g_mappings(&seen), gbool(wf(&seen) && textual(&seen))));
-				r.case("violate-wf", format!("CWriteRead {} {} {}", g_mappings(&seen), g_wres(&w), g_rres(&rr)));
+				r.case("violate-wf", format!("CWriteRead {} {} {} {}", h_mappings(&seen), gbool(wf(&seen) && textual(&seen)), g_wres(&w), g_rres(&rr)));
 				r.eval(&g_mappings(&seen), false);
 			}
 		}
